@@ -139,6 +139,8 @@ static bool ref4_mode(const std::string& s, bool strict, uint32_t& out) {
 }
 static Cls ref4(const std::string& s, u128& val, const char*& tag) {
     uint32_t v = 0;
+    // the constructors hand c_str() to inet_pton: what happens behind an embedded NUL is not documented -> not compared
+    if (s.find('\0') != std::string::npos) { tag = "embedded-nul"; return UNSPEC; }
     if (ref4_mode(s, true, v)) { val = v; tag = "dotted-quad"; return VALID; }
     if (ref4_mode(s, false, v)) { val = v; tag = "leading-zero"; return UNSPEC; }
     tag = "not-dotted-quad";
@@ -193,6 +195,7 @@ static bool ref6_mode(const std::string& s, bool strict4, u128& val) {
     return true;
 }
 static Cls ref6(const std::string& s, u128& val, const char*& tag) {
+    if (s.find('\0') != std::string::npos) { tag = "embedded-nul"; return UNSPEC; }
     if (ref6_mode(s, true, val)) { tag = "rfc4291"; return VALID; }
     if (ref6_mode(s, false, val)) { tag = "leading-zero-in-v4-tail"; return UNSPEC; }
     tag = "not-rfc4291";
@@ -311,6 +314,25 @@ template <class A> static void enum_edits(const std::string& seed, const std::st
         std::vector<std::string> e2;
         edits(e1[i], alpha, e2);
         for (auto& t : e2) check_string<A>(t, st);
+    }
+}
+
+// "single foreign byte": every one of the 256 byte values substituted at / inserted before every position of a valid seed;
+// mode 1: every pair of positions x a 27-value set of range-neighbour / control / high bytes; mode 2: all 65536 byte pairs in
+// the first and in the last two-character group of the seed
+static const uint8_t NEIGH[] = {0x01, 0x09, 0x0a, 0x10, 0x19, 0x1a, 0x20, 0x2f, 0x30, 0x39, 0x3a, 0x40, 0x41, 0x46, 0x47, 0x5b, 0x60,
+                                0x61, 0x66, 0x67, 0x7f, 0x80, 0xb0, 0xb9, 0xc1, 0xe1, 0xff};
+template <class A> static void enum_foreign_bytes(const std::string& seed, int mode, StrStats& st) {
+    if (mode == 0) {
+        check_string<A>(seed, st);
+        for (size_t i = 0; i < seed.size(); ++i) for (int b = 0; b < 256; ++b) { if ((char)b == seed[i]) continue; std::string t = seed; t[i] = (char)b; check_string<A>(t, st); }
+        for (size_t i = 0; i <= seed.size(); ++i) for (int b = 0; b < 256; ++b) { std::string t = seed; t.insert(i, 1, (char)b); check_string<A>(t, st); }
+    } else if (mode == 1) {
+        for (size_t i = 0; i < seed.size(); ++i) for (size_t j = i + 1; j < seed.size(); ++j)
+            for (uint8_t x : NEIGH) for (uint8_t y : NEIGH) { std::string t = seed; t[i] = (char)x; t[j] = (char)y; check_string<A>(t, st); }
+    } else {
+        size_t at[2] = {0, seed.size() - 2};
+        for (size_t p : at) for (int x = 0; x < 256; ++x) for (int y = 0; y < 256; ++y) { std::string t = seed; t[p] = (char)x; t[p + 1] = (char)y; check_string<A>(t, st); }
     }
 }
 
@@ -568,13 +590,13 @@ template <class A> static void check_postincrement(u128 first, u128 last) {
 }
 
 // ---------------------------------------------------------------- units
-enum Part { P_RT4 = 0, P_RT6, P_RTHW, P_ORD, P_STR_ENUM, P_STR_TOK, P_STR_EDIT, P_RNG_PREFIX, P_RNG_MASK, P_RNG_EXPLICIT, P_RNG_MISC, P_RNG_FULL };
+enum Part { P_RT4 = 0, P_RT6, P_RTHW, P_ORD, P_STR_ENUM, P_STR_TOK, P_STR_EDIT, P_RNG_PREFIX, P_RNG_MASK, P_RNG_EXPLICIT, P_RNG_MISC, P_RNG_FULL, P_STR_BYTE };
 enum Fam { F_V4 = 0, F_V6, F_HW, F_HW2 };
 struct Unit { int part, fam; int i0, i1, i2; uint64_t lo, hi; std::string s0, s1; };
 
 static const char* fam_name(int f) { return f == F_V4 ? "v4" : f == F_V6 ? "v6" : f == F_HW ? "hw" : "hw2"; }
 static const char* part_name(int p) {
-    static const char* n[] = {"rt4", "rt6", "rthw", "ord", "str-enum", "str-tok", "str-edit", "rng-prefix", "rng-mask", "rng-explicit", "rng-misc", "rng-full"};
+    static const char* n[] = {"rt4", "rt6", "rthw", "ord", "str-enum", "str-tok", "str-edit", "rng-prefix", "rng-mask", "rng-explicit", "rng-misc", "rng-full", "str-byte"};
     return n[p];
 }
 
@@ -651,6 +673,15 @@ static void str_configs(bool thorough, std::vector<EnumCfg>& en, std::vector<Tok
     ed.push_back(EditCfg{F_HW2, "0a:F1", ea, 2, 1});
 }
 
+struct ByteCfg { int fam; const char* seed; };
+static const ByteCfg BYTE_SEEDS[] = {
+    {F_V4, "192.168.10.255"}, {F_V4, "10.0.0.1"}, {F_V4, "255.255.255.255"}, {F_V4, "0.0.0.0"}, {F_V4, "1.22.133.4"},
+    {F_V6, "fe80::1:2"}, {F_V6, "1:2:3:4:5:6:7:8"}, {F_V6, "::ffff:1.2.3.4"}, {F_V6, "2001:db8::ff00:42:8329"}, {F_V6, "::"}, {F_V6, "ABCD:ef01::9"},
+    {F_HW, "00:1a:2B:ff:9c:f0"}, {F_HW, "ff:ff:ff:ff:ff:ff"}, {F_HW, "09:af:AF:90:a0:0f"}, {F_HW, "01:23:45"},
+    {F_HW2, "0a:F1"}, {F_HW2, "9f:A0"}, {F_HW2, "00"},
+};
+static const size_t N_BYTE_SEEDS = sizeof BYTE_SEEDS / sizeof BYTE_SEEDS[0];
+
 static std::vector<u128> explicit_set(int bits) {
     u128 M = maxv(bits), mid = (u128)1 << (bits - 1);
     std::set<u128> s;
@@ -688,6 +719,12 @@ static std::vector<Unit> build_units(bool thorough) {
     for (size_t c = 0; c < en.size(); ++c) for (size_t f = 0; f < en[c].alpha.size(); ++f) add(P_STR_ENUM, en[c].fam, (int)c, (int)f, 0, 0, 0);
     for (size_t c = 0; c < tk.size(); ++c) for (size_t f = 0; f < tk[c].tok.size(); ++f) add(P_STR_TOK, tk[c].fam, (int)c, (int)f, 0, 0, 0);
     for (size_t c = 0; c < ed.size(); ++c) for (int s = 0; s < ed[c].slices; ++s) add(P_STR_EDIT, ed[c].fam, (int)c, s, 0, 0, 0);
+    // single foreign byte (same in both tiers and stages); pairs over the neighbour set in the thorough tier; all byte pairs of one group for the hw parser
+    for (size_t c = 0; c < N_BYTE_SEEDS; ++c) {
+        add(P_STR_BYTE, BYTE_SEEDS[c].fam, (int)c, 0, 0, 0, 0);
+        if (thorough) add(P_STR_BYTE, BYTE_SEEDS[c].fam, (int)c, 1, 0, 0, 0);
+        if ((BYTE_SEEDS[c].fam == F_HW || BYTE_SEEDS[c].fam == F_HW2) && strlen(BYTE_SEEDS[c].seed) >= 5 && (c == 11 || c == 15)) add(P_STR_BYTE, BYTE_SEEDS[c].fam, (int)c, 2, 0, 0, 0);
+    }
     // ranges: one unit per (family, prefix length)
     for (int p = 0; p <= 32; ++p) add(P_RNG_PREFIX, F_V4, p, 0, 0, 0, 0);
     for (int p = 0; p <= 128; ++p) add(P_RNG_PREFIX, F_V6, p, 0, 0, 0, 0);
@@ -861,6 +898,17 @@ static void run_unit(const Unit& un, bool thorough) {
             else if (c.fam == F_HW) enum_edits<HW6>(c.seed, c.alpha, c.depth, un.i1, c.slices, st); else enum_edits<HW2>(c.seed, c.alpha, c.depth, un.i1, c.slices, st);
         }
         flush_stats(fam_name(un.fam), st);
+        break;
+    }
+    case P_STR_BYTE: {
+        const ByteCfg& c = BYTE_SEEDS[un.i0];
+        StrStats st;
+        if (c.fam == F_V4) enum_foreign_bytes<IPv4Address>(c.seed, un.i1, st); else if (c.fam == F_V6) enum_foreign_bytes<IPv6Address>(c.seed, un.i1, st);
+        else if (c.fam == F_HW) enum_foreign_bytes<HW6>(c.seed, un.i1, st); else enum_foreign_bytes<HW2>(c.seed, un.i1, st);
+        flush_stats(fam_name(un.fam), st);
+        std::string f = fam_name(un.fam);
+        R.count("foreign_byte_strings_" + f, st.total); R.count("foreign_byte_strings_" + f + "_accepted", st.acc);
+        R.count("foreign_byte_strings_" + f + "_rejected", st.rej); R.count("foreign_byte_strings_" + f + "_unspecified_not_compared", st.unspec);
         break;
     }
     case P_RNG_PREFIX:
